@@ -305,6 +305,14 @@ V("PR1-sorted-objects", "C01", "PR1",
    "        for (path_string, obj) in sorted(tdms_reader.object_metadata.items()):\n            properties = object_properties[path_string]"))
 
 # ---------------------------------------------------------------- C03 (MP1, MP3, TS1, OFS1)
+V("OFS1-group-chunk-keeps-the-mapping", "C03", "OFS1",
+  ("tdms.py", "                channel_offsets[channel.path]))\n            for channel in group.channels())\n", "                channel_offsets[channel.path]))\n            for channel in group.channels())\n        self._offsets = channel_offsets\n"))
+V("OFS1-count-advanced-before-yield", "C03", "OFS1",
+  ("tdms.py", "            yield DataChunk(self, chunk, channel_offsets)\n            for path, data in chunk.channel_data.items():\n                channel_offsets[path] += len(data)\n",
+   "            for path, data in chunk.channel_data.items():\n                channel_offsets[path] += len(data)\n            yield DataChunk(self, chunk, channel_offsets)\n"))
+V("OFS1-count-not-advanced", "C03", "OFS1",
+  ("tdms.py", "            yield DataChunk(self, chunk, channel_offsets)\n            for path, data in chunk.channel_data.items():\n                channel_offsets[path] += len(data)\n",
+   "            yield DataChunk(self, chunk, channel_offsets)\n"))
 V("MP1-no-convert-index-chunk", "C03", "MP1",
   ("tdms.py", "        (chunk, offset) = self._reader.read_channel_chunk_for_index(self.path, index)\n        _convert_channel_data_chunk(chunk, self._raw_timestamps)\n",
    "        (chunk, offset) = self._reader.read_channel_chunk_for_index(self.path, index)\n"))
